@@ -652,6 +652,7 @@ func (vc *VC) callByContract(fr *frame, st *State, ct *Contract, fn *ssa.Functio
 		st.heap[allocKey] = na
 		vc.allocatesFrame(st, old, ct, what)
 	}
+	vc.flushTyping(st)
 	res := vc.freshVal(st, rt, "ret$"+shortLabel(short))
 	post := vc.contractCtx(st, old, ct, fn, sig, recvT, args)
 	bindResults(post, res, rt)
@@ -850,6 +851,7 @@ func (vc *VC) evalLoc(c *evalCtx, e *Expr, ct *Contract) []loc {
 			if a.T != nil {
 				if mt, ok := a.T.Underlying().(*types.Map); ok {
 					m := c.int(a, e)
+					noteMapType(mt)
 					return []loc{{key: mapKey(mt) + "#dom", idx: []*Term{m}, sort: SBool}, {key: mapKey(mt) + "#val", idx: []*Term{m}}}
 				}
 			}
@@ -895,11 +897,45 @@ func (vc *VC) havocLocs(st *State, locs []loc, what string) {
 		cur := vc.heapGet(st, l.key, srt)
 		switch len(l.idx) {
 		case 0:
-			st.heap[l.key] = p.Fresh(l.key+"@"+what, srt)
+			f := p.Fresh(l.key+"@"+what, srt)
+			st.heap[l.key] = f
+			vc.pendingTyping = append(vc.pendingTyping, pendingType{l.key, f})
 		case 1:
-			st.heap[l.key] = p.Store(cur, l.idx[0], p.Fresh(l.key+"@"+what, srt.elemSort()))
+			f := p.Fresh(l.key+"@"+what, srt.elemSort())
+			st.heap[l.key] = p.Store(cur, l.idx[0], f)
+			vc.pendingTyping = append(vc.pendingTyping, pendingType{l.key, f})
 		}
 	}
+}
+
+type pendingType struct {
+	key  string
+	term *Term
+}
+
+// flushTyping assumes, for every reference-holding map that was just havocked, that the references it
+// now holds are allocated in the current state (heap typing after a call or a loop havoc).
+func (vc *VC) flushTyping(st *State) {
+	p := vc.P
+	a := vc.allocCounter(st)
+	for _, pt := range vc.pendingTyping {
+		if !isRefKey(pt.key) {
+			continue
+		}
+		t := pt.term
+		var vars []*Term
+		for strings.HasPrefix(string(t.S), "(Array") {
+			vc.qSeq++
+			v := p.Var(fmt.Sprintf("h?%d", vc.qSeq), SInt)
+			vars = append(vars, v)
+			t = p.Select(t, v)
+		}
+		if t.S != SInt {
+			continue
+		}
+		vc.assume(st, p.Forall(vars, p.Le(t, a)))
+	}
+	vc.pendingTyping = nil
 }
 
 // funcFieldKey recognises a call through a function-typed struct field (x.f(...)) and returns the
